@@ -11,6 +11,7 @@ package main
 //   TV <vertex fields> | <verify 0/1> | <addleaf tag> <ledger changed 0/1>
 
 import (
+	"sync"
 	"bytes"
 	"crypto/sha256"
 	"encoding/hex"
@@ -29,19 +30,29 @@ type prov struct {
 }
 
 var sigLog = map[string]prov{}
+var sigLogMux sync.RWMutex
+
+func sigLogGet(s []byte) (prov, bool) {
+	sigLogMux.RLock()
+	defer sigLogMux.RUnlock()
+	p, ok := sigLog[string(s)]
+	return p, ok
+}
 
 // recSigner records the provenance of every signature it produces.
 type recSigner struct{ w *wallet.Wallet }
 
 func (r recSigner) Sign(msg []byte) ([32]byte, []byte) {
 	d, s := r.w.Sign(msg)
+	sigLogMux.Lock()
 	sigLog[string(s)] = prov{append([]byte{}, r.w.Public...), d}
+	sigLogMux.Unlock()
 	return d, s
 }
 func (r recSigner) Address() string { return r.w.Address() }
 
 func sigTok(s []byte) string {
-	if p, ok := sigLog[string(s)]; ok && len(s) > 0 {
+	if p, ok := sigLogGet(s); ok && len(s) > 0 {
 		return fmt.Sprintf("S%x:%x", p.key, p.digest[:])
 	}
 	return "R" + hex.EncodeToString(s)
@@ -122,6 +133,16 @@ func mutantsOf(c *Ctx, o accountant.Vertex, other accountant.Vertex, stranger, s
 	add("trx.issuersig.bitflip", func(v *accountant.Vertex) { v.Transaction.IssuerSignature = flip(v.Transaction.IssuerSignature, r, 4) })
 	add("trx.issuersig.from-other", func(v *accountant.Vertex) { v.Transaction.IssuerSignature = other.Transaction.IssuerSignature })
 	add("trx.issuersig.truncated", func(v *accountant.Vertex) { v.Transaction.IssuerSignature = v.Transaction.IssuerSignature[:63] })
+	// a valid signature followed by extra bytes / cut / doubled: only the exact 64 bytes are a signature
+	ext := func(b []byte, n int) []byte { return append(append([]byte{}, b...), make([]byte, n)...) }
+	add("trx.issuersig.extended1", func(v *accountant.Vertex) { v.Transaction.IssuerSignature = ext(v.Transaction.IssuerSignature, 1) })
+	add("trx.issuersig.extended64", func(v *accountant.Vertex) { v.Transaction.IssuerSignature = ext(v.Transaction.IssuerSignature, 64) })
+	add("trx.issuersig.doubled", func(v *accountant.Vertex) {
+		v.Transaction.IssuerSignature = append(append([]byte{}, v.Transaction.IssuerSignature...), v.Transaction.IssuerSignature...)
+	})
+	add("vertex.sig.extended1", func(v *accountant.Vertex) { v.Signature = ext(v.Signature, 1) })
+	add("vertex.sig.extended64", func(v *accountant.Vertex) { v.Signature = ext(v.Signature, 64) })
+	add("vertex.sig.truncated", func(v *accountant.Vertex) { v.Signature = v.Signature[:63] })
 	add("vertex.created+1ns", func(v *accountant.Vertex) { v.CreatedAt = v.CreatedAt.Add(1) })
 	add("vertex.weight+1", func(v *accountant.Vertex) { v.Weight++ })
 	add("vertex.left.bitflip", func(v *accountant.Vertex) { v.LeftParentHash[r%32] ^= 0x10 })
@@ -172,6 +193,8 @@ func mutantsOf(c *Ctx, o accountant.Vertex, other accountant.Vertex, stranger, s
 		add("receiversig.stripped", func(v *accountant.Vertex) { v.Transaction.ReceiverSignature = nil })
 		add("receiversig.bitflip", func(v *accountant.Vertex) { v.Transaction.ReceiverSignature = flip(v.Transaction.ReceiverSignature, r, 1) })
 		add("receiversig.from-issuer", func(v *accountant.Vertex) { v.Transaction.ReceiverSignature = v.Transaction.IssuerSignature })
+		add("receiversig.extended1", func(v *accountant.Vertex) { v.Transaction.ReceiverSignature = ext(v.Transaction.ReceiverSignature, 1) })
+		add("receiversig.extended64", func(v *accountant.Vertex) { v.Transaction.ReceiverSignature = ext(v.Transaction.ReceiverSignature, 64) })
 	} else {
 		add("receiversig.added-garbage", func(v *accountant.Vertex) { v.Transaction.ReceiverSignature = make([]byte, 64) })
 	}
